@@ -16,6 +16,8 @@
   RESET     a reused streaming encoder is reset before each block; bzip2/xz build a fresh encoder per block
   BLOCKCFG  data blocks are read with a fresh default DeserializerConfig over the file's schema; only the header's
             configuration is tightened (max_seq_size = 1000)
+  POOLCLEAN shared from c14: pooled scratch buffers of the serializer configuration the Writer reuses for every value
+            come back empty on every path
 It does NOT decide equality of what is read back nor buffer-boundary arithmetic inside the C libraries.
 """
 import re
@@ -129,6 +131,10 @@ def run(ctx):
     complete_write_rules(ctx)
     f = ctx.f
     blockcfg_rule(ctx)
+    # a Writer serializes every value through one SerializerConfig: what a value that was refused leaves in its scratch
+    # pool is prepended to the next out-of-order field, i.e. written to the file under an Ok
+    from .c14 import pool_rule
+    pool_rule(ctx)
     enc = with_helpers(fn_by_label(f, ENC))
     if enc is None:
         ctx.ob('CODEC', 'anchor', False, None, 'CompressionCodecState::encode not found')
